@@ -235,7 +235,7 @@ def observe_named(name, p, rs):
 #   ('embedded', c, outer_radixes, maps) ('circuit', radixes, [(c, loc), ...])
 def blank(k):
     return {'k': k, 'name': '-', 'p': [0], 'cp': [0], 'r': [2], 't': [{'idx': 0, 'ph': 0}], 'n': 0, 'cr': [2], 'levels': [[0]],
-            'maps': [[0]], 'tag': '', 'fz': [], 'sub': [], 'locs': [], 'given': [], 'sel': 0}
+            'maps': [[0]], 'tag': '', 'fz': [], 'sub': [], 'locs': [], 'given': [], 'sel': 0, 'gs': [-1, -1, -1]}
 
 
 def table_matrix(tab):
@@ -288,7 +288,19 @@ def other_point(rng, label, args):
 
 
 def realise(c, rng):
-    """construction -> (gate, parameter ints q of the gate, descriptor with the observed tables of its parts)."""
+    """construction -> (gate, parameter ints q of the gate, descriptor with the observed tables of its parts).  Every node of the
+    descriptor also carries 'gs', the observed shape of the part's own get_grad (input-class bookkeeping for known findings;
+    the specification does not read it)."""
+    gate, q, d = _realise(c, rng)
+    try:
+        shp = [int(x) for x in np.asarray(gate.get_grad(reals(q))).shape]
+        d['gs'] = (shp + [-1, -1, -1])[:3]
+    except Exception:
+        d['gs'] = [-1, -1, -1]
+    return gate, q, d
+
+
+def _realise(c, rng):
     from bqskit.ir import gates as G
     from bqskit.ir.circuit import Circuit
     k = c[0]
@@ -756,24 +768,6 @@ def qiskit_cases(named):
 
 
 # ------------------------------------------------------------------------------- run
-def _has_ctrl_of_const_composed(d):
-    """Input class of a known finding: somewhere below, a ControlledGate whose controlled gate is itself a composed gate
-    without parameters (DaggerGate / PowerGate / TaggedGate / EmbeddedGate / CircuitGate ... of constants)."""
-    if d['k'] == 'controlled':
-        s = d['sub'][0]
-        if s['k'] != 'base' and _nparams_desc(s) == 0:
-            return True
-    return any(_has_ctrl_of_const_composed(s) for s in d['sub'])
-
-
-def _nparams_desc(d):
-    if d['k'] == 'base':
-        return d['n'] if d['name'] in ('TABLE', 'OTHER') else len(d['p']) - len([x for x in d['cp']]) if d['name'] in ('MPRZ', 'MPRY') else (
-            len(d['p']) if d['name'] == 'DIAG' else exact.PARAM_ARITY.get(d['name'], 0))
-    n = sum(_nparams_desc(s) for s in d['sub'])
-    return n - len(d['fz']) if d['k'] == 'frozen' else n + len(d['locs']) if d['k'] == 'vlg' else n
-
-
 def _rad_desc(d):
     k = d['k']
     if k in ('base', 'embedded', 'circuit'):
@@ -791,38 +785,46 @@ def _rad_desc(d):
     return _rad_desc(d['sub'][0])
 
 
-def _vlg_class(d):
-    """Input classes of the VariableLocationGate findings: 'non-qubit' (some VariableLocationGate below is not on qubits only),
-    'non-involutive' (the selected location of some VariableLocationGate below is a qudit permutation that is not its own
-    inverse), else ''."""
+EMPTY_1D = [0, -1, -1]        # shape (0,): what `np.array([])` looks like in a descriptor's 'gs'
+
+
+def input_classes(d):
+    """Input classes the known findings of the composing gates are stated in (read off the construction descriptor and the
+    observed gradient shape 'gs' of its parts):
+      vlg-non-qubit            some VariableLocationGate below is not on qubits only
+      vlg-non-involutive       the selected location of some VariableLocationGate is a qudit permutation that is not its own inverse
+      vlg-constant-part        a VariableLocationGate directly over a parameter-free part whose gradient is `np.array([])`
+      controlled-constant-part a ControlledGate directly over such a part"""
     out = set()
     if d['k'] == 'vlg':
         rs = _rad_desc(d)
         if any(r != 2 for r in rs):
-            out.add('non-qubit')
+            out.add('vlg-non-qubit')
         loc = list(d['locs'][d['sel']])
         full = loc + [q for q in range(len(rs)) if q not in loc]
         if any(full[full[i]] != i for i in range(len(full))):
-            out.add('non-involutive')
+            out.add('vlg-non-involutive')
+        if d['sub'][0]['gs'] == EMPTY_1D:
+            out.add('vlg-constant-part')
+    if d['k'] == 'controlled' and d['sub'][0]['gs'] == EMPTY_1D:
+        out.add('controlled-constant-part')
     for s in d['sub']:
-        x = _vlg_class(s)
-        if x:
-            out.update(x.split('+'))
-    return '+'.join(sorted(out))
+        out |= input_classes(s)
+    return out
+
+
+# which of a case's input classes a verdict of a clause is filed under (the first the case has); any other clause: all of them
+CLASS_ORDER = {'dimension': ['vlg-non-qubit', 'vlg-constant-part'],
+               'unitary_and_grad-value': ['vlg-non-qubit', 'vlg-constant-part', 'controlled-constant-part', 'vlg-non-involutive']}
 
 
 def key_of(case, clause):
     base = clause.split(':')[0]
     k = {'kind': case['kind'], 'clause': base}
     if case['kind'] == 'composed':
-        d = case['d']
-        v = _vlg_class(d)
-        if v:
-            k['pattern'] = 'vlg-' + v
-        elif _has_ctrl_of_const_composed(d):
-            k['pattern'] = 'controlled-constant-composed' + ('' if d['k'] == 'controlled' else '-under-' + d['k'])
-        else:
-            k['pattern'] = ''
+        have = input_classes(case['d'])
+        first = [x for x in CLASS_ORDER.get(base, []) if x in have]
+        k['pattern'] = first[0] if first else '+'.join(sorted(have))
     if ':' in clause:
         k['sub'] = clause.split(':', 1)[1]
     if case['kind'] in ('named', 'qiskit'):
